@@ -359,6 +359,9 @@ class Ctx:
         for lf in self.loop_frames:
             if lf is not None:
                 lf.note_write(self, loc)
+        h = getattr(loc, "on_write", None)
+        if h is not None:
+            h(self, v)           # ghost instrumentation attached to a container model (e.g. last-written position of a value)
         if isinstance(loc, ArrLoc):
             self.store[loc.key] = z3.Store(self.store[loc.key], loc.index, v)
         else:
